@@ -520,7 +520,14 @@ where
         2 => rem,
         3 => rem + 1,
         4 => rem + ctx.rng.range(1, if ctx.p.small { 600 } else { 5000 }),
-        _ => ctx.rng.range(0, if ctx.p.small { 900 } else { 9000 }),
+        _ => {
+            if ctx.rng.chance(1, 5) {
+                // unrepresentable: must be reported as an error, never accepted
+                *ctx.rng.pick(&[usize::MAX, usize::MAX - 7, isize::MAX as usize + 1, isize::MAX as usize - 3])
+            } else {
+                ctx.rng.range(0, if ctx.p.small { 900 } else { 9000 })
+            }
+        }
     };
     ctx.begin(format!("{}reserve {n}{}", if t { "try_" } else { "" }, if via_dyn { " via dyn" } else { "" }));
     let before = ctx.view.clone();
@@ -568,7 +575,9 @@ where
             }
         }
     }
-    if ok && !via_dyn && ctx.view.typed.remaining < n {
+    if ok && n > isize::MAX as usize - 4096 {
+        ctx.viol("C07", "reserve_accepted_unrepresentable_size".into(), format!("reserve({n}) returned normally"));
+    } else if ok && !via_dyn && ctx.view.typed.remaining < n {
         ctx.viol("C12", "reserve_did_not_provide_capacity".into(), format!("reserve({n}) returned Ok but remaining() is {}", ctx.view.typed.remaining));
     }
 }
